@@ -486,4 +486,4 @@ def gen_prio(rng):
 
 def describe(cfg):
     return {k: cfg[k] for k in ('ns', 'r0', 'seedY', 'm', 'e', 'nswp', 'e_vld', 'hasI', 'hasy', 'dr_min', 'dr_max',
-                                'scale', 'cache', 'kNone', 'kcb', 'a', 'b', 'p')} | {'box': cfg.get('box'), 'sc2': cfg.get('sc2'), 'forms': cfg.get('forms')}
+                                'scale', 'cache', 'kNone', 'kcb', 'a', 'b', 'p')} | {'box': cfg.get('box'), 'sc2': cfg.get('sc2'), 'sc2Y': cfg.get('sc2Y'), 'forms': cfg.get('forms')}
